@@ -52,6 +52,9 @@ pub enum Op {
     ReadToEnd { buf: u16 },
     Shutdown,
     DropStream,
+    /// into_split(); the write half is dropped at once (0), moved into a tokio::spawn'ed task (1) or into a
+    /// spawn_local'ed task (2) that just holds it; this task then holds the read half for ever without reading
+    SplitIdle { mode: u8 },
     // --- UDP ---
     UdpBind { port: u16 },
     UdpJoin { g: u8 },
@@ -115,6 +118,10 @@ pub struct Scenario {
     pub workload_steps: u32,
     /// false = the workload may let the victim's main future return (such hosts are not judged)
     pub guarded: bool,
+    /// (host, step): an uninvolved host that is bounced (without a crash) before that step, in this run and
+    /// in the crash-free twin alike — typically while the victim is down
+    #[serde(default)]
+    pub bystander: Option<(u8, u32)>,
 }
 
 pub struct C04;
@@ -581,6 +588,32 @@ fn run_ops(cx: Ctx, ops: Vec<Op>, guard: TaskGuard, stream_in: Option<(TcpStream
                     stream = None;
                     cx.log("drop stream");
                 }
+                Op::SplitIdle { mode } => {
+                    let Some((s, _, _, _)) = stream.take() else { continue };
+                    let (r, w) = s.into_split();
+                    match mode {
+                        0 => drop(w),
+                        1 => {
+                            tokio::spawn(async move {
+                                let _w = w;
+                                std::future::pending::<()>().await;
+                            });
+                        }
+                        _ => {
+                            tokio::task::spawn_local(async move {
+                                let _w = w;
+                                std::future::pending::<()>().await;
+                            });
+                        }
+                    }
+                    cx.log(format!("split, write half {}, read half held unread", ["dropped", "in a tokio::spawn task", "in a spawn_local task"][(*mode as usize).min(2)]));
+                    cx.tag("split-idle");
+                    loop {
+                        tokio::time::sleep(cx.tick() * 3).await;
+                        cx.bump();
+                        let _ = &r;
+                    }
+                }
                 Op::UdpBind { port } => match UdpSocket::bind(SocketAddr::new(wildcard(cx.sh.v6), *port)).await {
                     Ok(s) => {
                         cx.log(format!("udp bind {port} ok"));
@@ -897,7 +930,12 @@ fn gen_scenario(rng: &mut Rng) -> Scenario {
             1 => {
                 // V reads (slowly or eagerly), the peer writes
                 let rgap = *rng.pick(&[0u8, 0, 1, 3]);
-                v.push(Op::Spawn { local: true, ops: vec![Op::Listen { port: 7011 }, Op::AcceptLoop { serve: vec![Op::Read { buf: *rng.pick(&[4u16, 16, 64]), times: 400, gap: rgap, peek: rng.chance(1, 3) }] }] });
+                let mut serve = vec![Op::Read { buf: *rng.pick(&[4u16, 16, 64]), times: 400, gap: rgap, peek: rng.chance(1, 3) }];
+                if rng.chance(1, 4) {
+                    // the victim splits the stream, lets go of (or hands away) the write half and sits on unread data
+                    serve = vec![Op::Read { buf: 4, times: rng.range(0, 3) as u16, gap: 0, peek: false }, Op::SplitIdle { mode: rng.below(3) as u8 }];
+                }
+                v.push(Op::Spawn { local: true, ops: vec![Op::Listen { port: 7011 }, Op::AcceptLoop { serve }] });
                 // half of the peers write more segments than tcp_capacity allows to be outstanding: they are
                 // parked on the flow-control credits when the crash lands (former known finding C04-K1, repaired)
                 let times = if rng.bool() { rng.range(1, cap.min(12) as u64) as u16 } else { rng.range(cap as u64 + 1, cap as u64 + 8) as u16 };
@@ -1061,7 +1099,8 @@ fn gen_scenario(rng: &mut Rng) -> Scenario {
         6 => Pattern::BounceOnly,
         _ => Pattern::Cycles { n: rng.range(1, 3) as u8, k: *rng.pick(&[0u8, 1, 2, 7]), up: rng.range(1, 6) as u8 },
     };
-    Scenario { cfg, hosts, sel, pattern, crash_at: rng.range(1, w as u64) as u32, workload_steps: w, guarded }
+    let bystander = if rng.chance(1, 6) { Some(((u0 + rng.usize(0, 1)) as u8, rng.range(1, w as u64 + 8) as u32)) } else { None };
+    Scenario { cfg, hosts, sel, pattern, crash_at: rng.range(1, w as u64) as u32, workload_steps: w, guarded, bystander }
 }
 
 // ------------------------------------------------------------------------------------------------
@@ -1169,6 +1208,14 @@ fn execute(sc: &Scenario, keep: bool) -> RunOut {
         // obligations: (op id, deadline step, kind)
         let mut oblig: Vec<(u64, u32, PK, usize)> = Vec::new();
         for s in 1..=total {
+            if let Some((h, at)) = sc.bystander {
+                if at == s && (h as usize) < nh && !sc.hosts[h as usize].ops.is_empty() {
+                    let name = sc.hosts[h as usize].name.clone();
+                    sh.log.ev(format!("ctl bounce of the uninvolved host {name} before step {s}"));
+                    sim.bounce(name);
+                    probes.push(if down.iter().any(|d| d.is_some()) { "uninvolved_host_bounced_while_a_victim_is_down" } else { "uninvolved_host_bounced" });
+                }
+            }
             for (at, act) in &script {
                 if *at != s {
                     continue;
@@ -1715,6 +1762,9 @@ impl Property for C04 {
             }
             _ => {}
         }
+        if sc.bystander.is_some() {
+            out.push(Scenario { bystander: None, ..sc.clone() });
+        }
         if let Sel::Regex(_) = sc.sel {
             out.push(Scenario { sel: Sel::Host(0), ..sc.clone() });
         }
@@ -1816,6 +1866,7 @@ impl Property for C04 {
                     Op::ReadToEnd { .. } => "readall",
                     Op::Shutdown => "shutdown",
                     Op::DropStream => "dropstream",
+                    Op::SplitIdle { .. } => "splitidle",
                     Op::UdpBind { .. } => "ubind",
                     Op::UdpJoin { .. } => "ujoin",
                     Op::UdpConnect { .. } => "uconnect",
